@@ -24,6 +24,7 @@ import (
 //     that reaches a sink. backgroundFrames: only read when the dynamic threshold is on
 //     (these drivers use a fixed threshold).
 //   - FrameLoop.orderedFrames: scratch output of GetHistory, rewritten before every use.
+//
 // A wrong rule cannot produce a VIOLATION (violations are always replayed from the initial
 // state on the real code); it could only hide states, which is what the key-free tree
 // enumeration of the same check guards against.
@@ -162,9 +163,9 @@ func procBFS(r *ev.Run, cfg PCfg, base, dev []string, maxDev int, enabled func(d
 		dev  int
 	}
 	type succ struct {
-		key  string
-		n    node
-		tr   string
+		key string
+		n   node
+		tr  string
 	}
 	st := bfsStats{Converged: true}
 	seen := map[string]bool{}
